@@ -3,6 +3,7 @@ package main
 // Contract files: parsing of //@ lines and evaluation of contract expressions.
 
 import (
+	"sort"
 	"fmt"
 	"go/ast"
 	"go/constant"
@@ -209,6 +210,23 @@ func parseContractText(text, path, pkgPath string) (*ContractFile, error) {
 				return nil, fmt.Errorf("%s:%d: bad const pin", path, i+1)
 			}
 			cf.Pins = append(cf.Pins, &ConstPin{Pkg: pkgPath, Name: strings.TrimSpace(rest[:k]), Lit: strings.TrimSpace(rest[k+2:]), File: path, Line: i + 1})
+		case "callers":
+			// callers <func>: f, g   (structural: the complete list of functions with a static call of <func>;
+			// a use of <func> as a value is listed as "(value)")
+			flush()
+			cur = nil
+			k := strings.Index(rest, ":")
+			if k < 0 {
+				return nil, fmt.Errorf("%s:%d: bad callers clause", path, i+1)
+			}
+			var names []string
+			for _, n := range strings.Split(rest[k+1:], ",") {
+				if n = strings.TrimSpace(n); n != "" {
+					names = append(names, n)
+				}
+			}
+			sort.Strings(names)
+			cf.Pins = append(cf.Pins, &ConstPin{Pkg: pkgPath, Name: "callers:" + strings.TrimSpace(rest[:k]), Lit: strings.Join(names, ","), File: path, Line: i + 1})
 		case "recursive":
 			flush()
 			cf.Recursive[rest] = true
